@@ -275,6 +275,16 @@ func c10Generate(thorough bool) []c10Case {
 			add("quoted-names", "CREATE TABLE t ("+n1+", "+n2+", c)", "CREATE INDEX i1 ON t ("+n2+", "+n1+")")
 		}
 	}
+	// F10: a double-quoted word that names no column is a string for SQLite (an expression key column), and a
+	// column may have the empty name
+	for _, ic := range []string{`"nosuch"`, `"nosuch", a`, `a, "nosuch" DESC`, `"nosuch" COLLATE NOCASE`, `"A"`, `"b", "nosuch"`} {
+		add("quoted-non-columns", "CREATE TABLE t (a, b COLLATE NOCASE, c)", "CREATE INDEX i1 ON t ("+ic+")")
+		add("quoted-non-columns", "CREATE TABLE t (a INTEGER PRIMARY KEY, b COLLATE NOCASE, c)", "CREATE UNIQUE INDEX i1 ON t ("+ic+")")
+	}
+	for _, def := range []string{`("" , b)`, `(a, "" COLLATE NOCASE)`, `(a, "" UNIQUE)`, `(a, "", UNIQUE (""))`, `("" PRIMARY KEY, b) WITHOUT ROWID`, `(a, [])`, "(a, ``)"} {
+		add("quoted-non-columns", "CREATE TABLE t "+def)
+		add("quoted-non-columns", "CREATE TABLE t "+def, `CREATE INDEX i1 ON t ("")`)
+	}
 	// F7: table options after the closing parenthesis (STRICT exists since 3.37; a definition sqlittle cannot
 	// interpret must be rejected, not read as if the options were not there)
 	for _, opt := range []string{" STRICT", " WITHOUT ROWID, STRICT", " STRICT, WITHOUT ROWID", " strict , without rowid"} {
@@ -485,6 +495,11 @@ func c10Class(stmts []string) string {
 	}
 	if strings.Contains(up, "+ 1 COLLATE") {
 		return ":binary-op-collate"
+	}
+	for _, empty := range []string{`"" `, `"")`, `"",`, "[]", "``)", "`` "} {
+		if strings.Contains(all, empty) && !strings.Contains(all, `"""`) && !strings.Contains(all, "```") {
+			return ":empty-column-name"
+		}
 	}
 	body := stmts[0]
 	if i := strings.Index(body, "("); i >= 0 {
